@@ -268,12 +268,16 @@ Definition le32 (n : Z) : list N :=
 Definition un_le32 (a b c d : N) : Z := Z.of_N a + 256 * Z.of_N b + 65536 * Z.of_N c + 16777216 * Z.of_N d.
 Definition frame (p : list N) : list N := le32 (Z.of_nat (length p)) ++ p.
 
+(* z <= length r, decided by walking r (a garbage length can be 2^32-1; the stream can be long) *)
+Fixpoint has_len (r : list N) (z : Z) : bool :=
+  if z <=? 0 then true else match r with [] => false | _ :: r' => has_len r' (z - 1) end.
+
 Fixpoint parse_frames (fuel : nat) (s : list N) : option (list (list N)) :=
   match s with
   | [] => Some []
   | a :: b :: c :: d :: r =>
       let z := un_le32 a b c d in
-      if z <=? Z.of_nat (length r) then   (* compared in Z: a garbage length can be 2^32-1 *)
+      if has_len r z then
         let n := Z.to_nat z in
         match fuel with
         | O => None
